@@ -56,8 +56,22 @@ def gen(ctx, binpath, name, args):
     return out
 
 
-def decide(ctx, binpath, module, invs, traces):
-    raw = vlib.validate_traces(ctx, module, invs, traces)
+def decide(ctx, binpath, module, invs, traces, extras=()):
+    """Validate traces; `invs` decide the property, `extras` are invariants beyond the listed properties:
+    they are evaluated and reported in the evidence file but never produce a verdict."""
+    raw = vlib.validate_traces(ctx, module, list(invs) + list(extras), traces)
+    beyond = [v for v in raw if v["inv"] in extras]
+    raw = [v for v in raw if v["inv"] not in extras]
+    if extras:
+        obs = ctx.extra.setdefault("beyond_property_checks", {"invariants": [], "observations": []})
+        obs["invariants"] = sorted(set(obs["invariants"]) | set(extras))
+        for v in beyond[:20]:
+            try:
+                cid_ = json.loads(v["case"]).get("id", "")
+            except Exception:
+                cid_ = ""
+            obs["observations"].append({"inv": v["inv"], "case_id": cid_, "event": v["event"][:300]})
+        obs["violating_cases"] = obs.get("violating_cases", 0) + len(beyond)
     vlib.handle_violations(ctx, binpath, module, invs, raw)
 
 
@@ -294,7 +308,7 @@ def bgen(ctx, b, what, extra=()):
 def run_C07(ctx):
     b = vlib.build_harness()
     q = ctx.quick
-    vlib.model_check(ctx, "FileBuild", cfg_filebuild(16 if q else 40, [2, 3, 4], invs=["Inv_C07_Shape", "Inv_C01_Flatten"], props=()),
+    vlib.model_check(ctx, "FileBuild", cfg_filebuild(16 if q else 40, [2, 3, 4], invs=["Inv_C07_Shape", "Inv_C01_Flatten", "Inv_X_TrickleFlatten"], props=()),
                      name="FileBuild_C07")
     # non-vacuity / documentation of F1: the pre-fix collapse rule is rejected by the same invariant
     vlib.model_check(ctx, "FileBuild", cfg_filebuild(8, [2, 3], collapse="always", invs=["Inv_C07_Shape"], props=()),
@@ -306,7 +320,7 @@ def run_C07(ctx):
          bgen(ctx, b, "deep", ["-maxn", 300 if q else 3000]),
          bgen(ctx, b, "cdc", ["-count", 150 if q else 3000])]
     ctx.exhaustive = True
-    decide(ctx, b, "TraceBuild", BUILD_INVS["C07"], t)
+    decide(ctx, b, "TraceBuild", BUILD_INVS["C07"], t, extras=["Inv_X_TrickleShape"])
 
 
 def run_C10(ctx):
@@ -415,7 +429,8 @@ def run_C14(ctx):
     vlib.model_check(ctx, "Reify", open(vlib.os.path.join(vlib.SPEC, "Reify.cfg")).read(), name="Reify")
     t = [hgen(ctx, b, "reify"), hgen(ctx, b, "file", pairs=not ctx.quick), hgen(ctx, b, "dir"), hgen(ctx, b, "hamt", pairs=not ctx.quick)]
     ctx.exhaustive = True
-    decide(ctx, b, "TraceHostile", ["Inv_NoPanic", "Inv_C14_Typed_T", "Inv_C14_Substrate"], t)
+    decide(ctx, b, "TraceHostile", ["Inv_NoPanic", "Inv_C14_Typed_T", "Inv_C14_Substrate"], t,
+           extras=["Inv_X_ADLBytes", "Inv_X_ADLBytesLength", "Inv_X_ADLMap"])
 
 
 def run_C13(ctx):
